@@ -22,7 +22,7 @@ v("C01", "refresh-reads-revision-outside-snapshot", HB,
   "rev, updateErr := e.kv.Update(e.key, payloadBytes, e.revision.Load(), opts...)",
   ["C01-R3"], "the refresh goroutine re-reads the revision field without the mutex instead of using the snapshot")
 v("C01", "delete-without-ownership-check", KV,
-  "ownedRev, owned := e.ownsRecord(termToken)\n\t\tif !owned {", "ownedRev, owned := uint64(0), termToken != \"\"\n\t\tif !owned {", ["C01-R6"], "StopWithContext deletes the key without verifying ownership")
+  "ownedRev, owned := e.ownsRecord(termToken)\n\tif !owned {", "ownedRev, owned := uint64(0), termToken != \"\"\n\tif !owned {", ["C01-R6"], "StopWithContext deletes the key without verifying ownership")
 v("C01", "observe-leader-while-leader", KV,
   "\tif e.isLeader.Load() {\n\t\treturn\n\t}\n\te.leaderID.Store(id)", "\te.leaderID.Store(id)",
   ["C01-R4"], "observeLeader stores observed revisions even while the instance is leader")
@@ -168,6 +168,10 @@ v("C13", "preempts-nameless-record", KV, "\tif currentPayload.ID == \"\" {\n\t\t
 v("C08", "failed-stop-silent", KV, "\t\tif wasLeader && hasOnDemote {\n\t\t\te.notifyDemotedByFailedStop()\n\t\t}\n\t\treturn fmt.Errorf(\"shutdown timeout exceeded: %v\", timeout)", "\t\treturn fmt.Errorf(\"shutdown timeout exceeded: %v\", timeout)", ["C08-R2"], "a StopWithContext that times out clears the claim without OnDemote")
 v("C01", "shutdown-delete-unconditional", KV, "\tif rd, ok := e.kv.(RevisionDeleter); ok {\n\t\treturn rd.DeleteRevision(e.key, rev)\n\t}\n", "\t_ = rev\n", ["C01-R7"], "the shutdown deletion ignores the revision of the ownership read")
 v("C14", "delete-revision-without-option", EL, "return a.kv.Delete(key, nats.LastRevision(rev))", "_ = rev\n\treturn a.kv.Delete(key)", ["C14-R2"], "the adapter's conditional delete is unconditional")
+v("C09", "refused-claim-leaves-record", KV, "\t\te.discardUnclaimedRecord(rev)\n\t\treturn ErrAlreadyStopped", "\t\treturn ErrAlreadyStopped", ["C09-R7"], "an acquisition refused by a stop leaves the record it has just created")
+v("C09", "deletion-on-the-stop-goroutine", KV, "\t\tdeleted := make(chan struct{})\n\t\tgo func() {\n\t\t\tdefer close(deleted)\n\t\t\te.deleteOwnRecord(ctx, termToken)\n\t\t}()\n", "\t\tdeleted := make(chan struct{})\n\t\te.deleteOwnRecord(ctx, termToken)\n\t\tclose(deleted)\n", ["C09-R8"], "StopWithContext reads and deletes on its own goroutine, unbounded")
+v("C09", "ondemote-wait-full-timeout", KV, "\t\t\t\tcase <-time.After(time.Until(deadline)):\n\t\t\t\t\tlog.Warn(\"ondemote_callback_timeout\"", "\t\t\t\tcase <-time.After(timeout):\n\t\t\t\t\tlog.Warn(\"ondemote_callback_timeout\"", ["C09-R8", "C09-R3"], "the wait for OnDemote takes the full time-out again")
+v("C01", "discard-without-shutdown-flag", KV, "\tif !e.deleteKeyOnStop.Load() {\n\t\treturn\n\t}\n\tif err := e.deleteRecordAt(rev); err != nil {", "\tif err := e.deleteRecordAt(rev); err != nil {", ["C01-R6"], "a refused acquisition deletes its record although no shutdown asked for it")
 # ---- C19
 v("C19", "demotion-does-not-cancel", KV, "\tif e.termCancel != nil {\n\t\te.termCancel()\n\t\te.termCancel = nil\n\t}\n", "", ["C19-R1"], "demotion no longer cancels the term context")
 v("C19", "promotion-context-from-background", KV, "promoteCtx, cancel := context.WithCancel(termCtx)", "_ = termCtx\n\t\t\tpromoteCtx, cancel := context.WithCancel(context.Background())", ["C19-R1"], "the promotion context is detached from the term")
